@@ -6,7 +6,7 @@ use std::sync::atomic::{AtomicUsize, Ordering};
 use std::sync::Arc;
 
 /// (routed path, preference, status, size, header name, header value, stream) — same table as lean/KvarnModel/Drv/C03.lean
-const TABLE: [(&str, &str, u16, usize, &str, &str, bool); 20] = [
+const TABLE: [(&str, &str, u16, usize, &str, &str, bool); 21] = [
     ("/full", "full", 200, 60, "", "", false),
     ("/qm", "qm", 200, 60, "", "", false),
     ("/none", "none", 200, 60, "", "", false),
@@ -32,6 +32,8 @@ const TABLE: [(&str, &str, u16, usize, &str, &str, bool); 20] = [
     ("/vbig", "vbig", 200, 60, "", "", false),
     // a handler that rewrites the request's URI while it runs (to `/full`): the entry belongs to the URI that was looked up
     ("/rw", "rw", 200, 60, "", "", false),
+    // a page whose *path* spells what `/qm` + `x=1` spell together: the key of `/qm?x=1` keeps path and query apart
+    ("/qmx=1", "full", 200, 60, "", "", false),
 ];
 /// the class of a request on a page with the vary rule: event field `a` = no header (default class), `b` = sv, `c` = de
 fn class_of(variant: &str) -> usize {
@@ -180,6 +182,9 @@ impl Group for History {
         // a handler that rewrites the request's URI to another page's: neither page may end up with the other's entry
         v.push("c03.hist 1 0 [R:5:G:19:0:none:a,R:10:G:0:0:none:a,R:15:G:19:0:none:a,R:20:G:0:0:none:a]".to_owned());
         v.push("c03.hist 1 0 [R:5:G:0:2:none:a,R:10:G:19:2:none:a,R:15:G:0:2:none:a,R:20:G:19:3:none:a,R:25:H:0:0:none:a]".to_owned());
+        // `/qm?x=1` and `/qmx=1` are different resources (either order; then each once more, as hits)
+        v.push("c03.hist 1 0 [R:5:G:1:2:none:a,R:10:G:20:0:none:a,R:15:G:1:2:none:a,R:20:G:20:0:none:a,R:25:H:20:0:none:a]".to_owned());
+        v.push("c03.hist 1 0 [R:5:G:20:0:none:a,R:10:G:1:2:none:a,R:15:G:20:0:none:a,R:20:G:1:2:none:a,R:25:G:20:1:none:a]".to_owned());
         // If-Modified-Since on the boundary: three GETs (the second and third are hits and report the entry's second),
         // then a copy from exactly that second (304) and a copy one second older (not 304)
         v.push("c03.hist 1 0 [R:5:G:0:0:none:a,R:10:G:0:0:none:a,R:15:G:0:0:lm0:a,R:20:G:0:0:lm1:a,R:25:H:0:0:lm1:a,R:30:G:0:0:lm0:a]".to_owned());
